@@ -2110,6 +2110,7 @@ func (d *Data) ReceiveBlocks(ctx *datastore.VersionedCtx, r io.ReadCloser, scale
 	if downscale {
 		downresMut = downres.NewMutation(d, ctx.VersionID(), mutID)
 	}
+	defer downresMut.Abort() // releases the scales if we return before Execute
 
 	blockCh := make(chan blockChange, 100)
 	go d.aggregateBlockChanges(ctx.VersionID(), blockCh)
